@@ -283,6 +283,7 @@ func c06Spaces(c *fw.Ctx) {
 	c06GenerateSpace(c)
 	c06IncludeSpace(c)
 	c06IncludeDirSpace(c)
+	c06LongSpace(c)
 }
 
 // ---------------------------------------------------------------------------------------------
